@@ -38,6 +38,20 @@ def h_req_id(ctx, twin=False):
     h = SpacePacketHeader.unpack(hdr6)
     r2 = RequestId.from_sp_header(h)
     ctx.holds("from_sp_header == first four header octets", sym_and(r2.pack() == raw, r2.as_u32() == val, r2 == r))
+    # the fields are public attributes: once they are changed (directly, or through the header a from_sp_header id shares),
+    # the three forms still agree with each other and with a request id decoded from the new bits
+    ival(r), r == r2, r.as_u32()
+    sc2, ver2, apid2 = ctx.int("sc2", 0, 16383), ctx.int("ver2", 0, 7), ctx.int("apid2", 0, 2047)
+    r.tc_psc.seq_count = sc2
+    r.ccsds_version = ver2
+    r.tc_packet_id.apid = apid2
+    val2 = (ver2 << 29) | (val & 0x18000000) | (apid2 << 16) | (val & 0xC000) | sc2
+    raw2 = ctx.bytes_of(be(val2, 4))
+    fresh = RequestId.unpack(raw2)
+    ctx.holds("after field assignment: pack, as_u32 and == agree with the new bits", sym_and(
+        r.pack() == raw2, r.as_u32() == val2, r == fresh, fresh == r, ival(r) == ival(fresh)))
+    ctx.holds("after field assignment: no longer equal to an id with the old bits unless the bits are the same",
+              sym_implies(r == RequestId.unpack(raw), val2 == val))
     if twin:
         ctx.holds("twin", r.pack() != raw)
 
@@ -200,6 +214,10 @@ def cases(tier):
                 cs.append(Case("mismatch-s%d-step%d-fail%d" % (sub, fs, ff), "mismatch", h_mismatch,
                                dict(sub=sub, force_step=fs, force_fail=ff), bounds="presence combination for subservice %d" % sub))
         cs.append(Case("helper-s%d" % sub, "helper", h_helpers, dict(sub=sub), bounds="create_* helper for subservice %d" % sub))
+    if tier == "quick":      # the wide fields at least once per kind of report (the thorough tier has the full matrix)
+        for sub, ws, we in ((6, 8, 8), (5, 4, 1), (5, 8, 1), (8, 1, 8), (2, 1, 4), (4, 1, 8)):
+            cs.append(Case("report-wide-s%d-ws%d-we%d" % (sub, ws, we), "report", h_report, dict(sub=sub, ws=ws, we=we, nd=1 if sub in FAIL_SUBS else 0, t=0),
+                           bounds="subservice %d, step width %d, code width %d: all request ids, values, header fields" % (sub, ws, we)))
     for sub in (5, 6, 2):
         for w in (1, 2, 4):
             cs.append(Case("report-ufield-s%d-w%d" % (sub, w), "report", h_report, dict(sub=sub, ws=w, we=w, nd=1, t=0, concrete_cls=True),
